@@ -51,7 +51,7 @@ func addrs(root interface{}) map[uintptr]string {
 			}
 			t := v.Type()
 			for i := 0; i < v.NumField(); i++ {
-				if t.Field(i).IsExported() {
+				if f := t.Field(i); f.IsExported() || (f.Anonymous && f.Type.Kind() == reflect.Struct) {
 					walk(v.Field(i), path+"."+t.Field(i).Name, false)
 				}
 			}
@@ -123,7 +123,7 @@ func scramble(root interface{}) (n int) {
 			}
 			t := v.Type()
 			for i := 0; i < v.NumField(); i++ {
-				if t.Field(i).IsExported() {
+				if f := t.Field(i); f.IsExported() || (f.Anonymous && f.Type.Kind() == reflect.Struct) {
 					walk(v.Field(i))
 				}
 			}
@@ -398,11 +398,139 @@ func runC14(k int, rng *Rng) CaseResult {
 		runtime.KeepAlive(pins)
 		pins = nil
 	}
+	if !w.failed() && k%3 == 0 {
+		stats.Count("embedded_shape_checks", int64(w.embScenario()))
+	}
 	var sample interface{}
 	if k < sampleMax {
 		sample = map[string]interface{}{"config": cfg.String(), "rounds": rounds, "shapes": shapes}
 	}
 	return w.finish(append(shapes, fmt.Sprint(k%50)), containers > 0, sample)
+}
+
+// EmbRec: containers promoted from an embedded struct of a non exported type. encoding/json
+// stores them like any other field; they are not described (not indexable) but they are part of
+// the object. Own collection, not in the golden corpus.
+type embBase struct {
+	Tags []string
+	M    map[string]int
+	P    *int
+	Arr  [2]*int
+	In   struct{ L []int }
+}
+
+type EmbRec struct {
+	sod.Item
+	embBase
+	A int
+}
+
+func (w *World) embScenario() (n int) {
+	r := w.rng
+	sch := sod.DefaultSchema
+	sch.Extension = w.cfg.Ext
+	sch.Cache, sch.Compress = w.cfg.Cache, w.cfg.Compress
+	if w.cfg.Async != 0 {
+		sch.Asynchrone(w.cfg.Threshold, w.cfg.Timeout)
+	}
+	var err error
+	if w.call("Create(EmbRec)", func() { err = w.db.Create(&EmbRec{}, sch) }) {
+		return
+	}
+	if err != nil {
+		w.fail("create-failed", "Create(EmbRec)", "-", err.Error())
+		return
+	}
+	clockSettle()
+	for round := 0; round < 2 && !w.failed(); round++ {
+		w.step++
+		v1, v2 := 7+round, 9
+		x := &EmbRec{A: round}
+		x.Tags = append(make([]string, 0, 2+r.Intn(3)), "t0", "t1")
+		x.M = map[string]int{"a": 1, "b": 2}
+		x.P = &v1
+		x.Arr = [2]*int{&v2, nil}
+		x.In.L = []int{1, 2, 3}
+		if w.call("InsertOrUpdate(EmbRec)", func() { err = w.db.InsertOrUpdate(x) }) {
+			return
+		}
+		if err != nil {
+			w.fail("insert-error", "InsertOrUpdate", "-", err.Error())
+			return
+		}
+		u := x.UUID()
+		snap := canonJSON(x)
+		inAddrs := addrs(x)
+		w.logf("stored EmbRec %s (%d reachable containers), scrambling the caller's object (%d mutations)", short(u), len(inAddrs), scramble(x))
+		read := func() *EmbRec {
+			var o sod.Object
+			var e error
+			how := r.Intn(3)
+			w.call("read(EmbRec)", func() {
+				switch how {
+				case 0:
+					in := &EmbRec{}
+					in.Initialize(u)
+					o, e = w.db.Get(in)
+				case 1:
+					o, e = w.db.GetByUUID(&EmbRec{}, u)
+				default:
+					var all []sod.Object
+					all, e = w.db.All(&EmbRec{})
+					for _, a := range all {
+						if a.UUID() == u {
+							o = a
+						}
+					}
+				}
+			})
+			g, _ := o.(*EmbRec)
+			if (e != nil || g == nil) && !w.failed() {
+				w.fail("read-error", "read(EmbRec)", "-", fmt.Sprintf("%v", e))
+			}
+			return g
+		}
+		if r.P(0.3) {
+			w.Reopen(false)
+			if w.failed() {
+				return
+			}
+		}
+		r1 := read()
+		if r1 == nil {
+			return
+		}
+		n++
+		if g := canonJSON(r1); g != snap {
+			w.fail("caller-mutation-visible", "InsertOrUpdate->read", "embedded", fmt.Sprintf("mutating the inserted object afterwards changed what is read\n read %s\n was  %s", g, snap))
+			return
+		}
+		if p, shared := sharedAddr(inAddrs, addrs(r1)); shared {
+			w.fail("alias", "InsertOrUpdate->read", "embedded", "the read object shares memory with the inserted object: "+p)
+			return
+		}
+		a1 := addrs(r1)
+		scramble(r1)
+		r2 := read()
+		if r2 == nil {
+			return
+		}
+		n++
+		if g := canonJSON(r2); g != snap {
+			w.fail("reader-mutation-visible", "read->read", "embedded", fmt.Sprintf("mutating a returned object changed a later read\n read %s\n was  %s", g, snap))
+			return
+		}
+		if p, shared := sharedAddr(a1, addrs(r2)); shared {
+			w.fail("alias", "read->read", "embedded", "two reads share memory: "+p)
+			return
+		}
+		runtime.KeepAlive(x)
+		runtime.KeepAlive(r1)
+		runtime.KeepAlive(r2)
+		runtime.KeepAlive(pins)
+		pins = nil
+	}
+	return
 }
 
 // kindOfDiff names the first top-level JSON field on which two canonical
